@@ -8,7 +8,7 @@
    semi_ctor_ok / w_E = Ok say that the real constructor's assertions pass. *)
 From Coq Require Import ZArith List Bool Arith Permutation.
 Import ListNotations.
-From KD Require Import C12.Model C12.Spec C12.Proofs C13.Model C13.Spec C13.ProofsCB C13.ProofsSemi C13.ProofsW C13.ProofsModes C13.Proofs C13.Reflect.
+From KD Require Import C12.Model C12.Spec C12.Proofs C13.Model C13.Spec C13.ProofsCB C13.ProofsSemi C13.ProofsW C13.ProofsModes C13.Proofs C13.ProofsRanks C13.Reflect.
 
 (* ================= ClassBalancedSampler ================= *)
 
@@ -54,6 +54,21 @@ Theorem ranks_union_is_prefix : forall c draw G h, perm_oracle draw -> cb_ctor_o
                     exact_per_class (cb_classes c) (cb_C c) (cb_spc c) (interleave (cb_streams c draw))).
 Proof. exact p_ranks. Qed.
 Print Assumptions ranks_union_is_prefix.
+
+(* when W does not divide C*spc: the ranks together hold every class spc times minus what the cut-off tail (the last
+   (C*spc) mod W entries of the global draw) held of it, i.e. between spc - (C*spc) mod W and spc times *)
+Theorem ranks_hold_each_class_up_to_the_cut : forall c draw G h,
+    perm_oracle draw -> cb_ctor_ok c = true -> 1 <= cb_W c -> cb_global c draw = Ok (G, h) ->
+    let E := cb_C c * cb_spc c in let W := cb_W c in
+    let tail := skipn (W * (E / W)) G in
+    let held := interleave (cb_streams c draw) in
+    length tail = E mod W /\ length held = W * (E / W) /\
+    forall i, i < cb_C c ->
+      class_count (cb_classes c) (Z.of_nat i) held + class_count (cb_classes c) (Z.of_nat i) tail = cb_spc c /\
+      cb_spc c - E mod W <= class_count (cb_classes c) (Z.of_nat i) held /\
+      class_count (cb_classes c) (Z.of_nat i) held <= cb_spc c.
+Proof. exact cb_ranks_class_counts. Qed.
+Print Assumptions ranks_hold_each_class_up_to_the_cut.
 
 Theorem class_balanced_indices_valid_and_length : forall c draw G h,
     perm_oracle draw -> cb_ctor_ok c = true -> 1 <= cb_W c -> cb_global c draw = Ok (G, h) ->
@@ -134,6 +149,61 @@ Theorem unlabeled_mode_visits_unlabeled_samples_once : forall c rs es draw rank 
     NoDup picks /\ length picks <= nu /\ nu - length picks < se_U c.
 Proof. exact unlabeled_mode_once. Qed.
 Print Assumptions unlabeled_mode_visits_unlabeled_samples_once.
+
+(* the same for any world size W >= 1 (each rank cycles through the pools with its own generator): the exact number of
+   labeled picks a rank makes in an epoch of len(sampler) indices ... *)
+Theorem rank_pick_counts : forall c rs es draw rank s, perm_oracle draw -> semi_ctor_ok c = true ->
+    r_out (semi_run c rs es draw rank) = Ok s ->
+    let cc := se_L c + se_U c in
+    length s = semi_len c /\
+    length (labeled_picks (se_classes c) s) = (semi_len c / cc) * se_L c + Nat.min (semi_len c mod cc) (se_L c) /\
+    length (labeled_picks (se_classes c) s) + length (unlabeled_picks (se_classes c) s) = semi_len c.
+Proof. exact semi_rank_counts. Qed.
+Print Assumptions rank_pick_counts.
+
+(* ... and what "labeled" / "unlabeled" mean for a rank: with q = floor(pool / chunk part) chunks in the whole epoch,
+   a rank visits every sample of that pool at most once and makes between floor(q/W) and ceil(q/W) chunk parts of
+   picks from it.  (ceil(q*L/W) would be wrong: q = 1, L = U = 2, W = 2 gives len = 2 and 2 labeled picks.) *)
+Theorem labeled_mode_each_rank_visits_labeled_samples_at_most_once : forall c rs es draw rank s,
+    perm_oracle draw -> semi_ctor_ok c = true -> 1 <= se_W c ->
+    se_mode c = MLabeled -> r_out (semi_run c rs es draw rank) = Ok s ->
+    let picks := labeled_picks (se_classes c) s in
+    let nl := length (labeled_pool (se_classes c)) in
+    let q := nl / se_L c in
+    NoDup picks /\ (q / se_W c) * se_L c <= length picks /\ length picks <= cdiv q (se_W c) * se_L c /\
+    length picks <= nl.
+Proof. exact labeled_mode_rank. Qed.
+Print Assumptions labeled_mode_each_rank_visits_labeled_samples_at_most_once.
+
+Theorem unlabeled_mode_each_rank_visits_unlabeled_samples_at_most_once : forall c rs es draw rank s,
+    perm_oracle draw -> semi_ctor_ok c = true -> 1 <= se_W c ->
+    se_mode c = MUnlabeled -> r_out (semi_run c rs es draw rank) = Ok s ->
+    let picks := unlabeled_picks (se_classes c) s in
+    let nu := length (unlabeled_pool (se_classes c)) in
+    let q := nu / se_U c in
+    NoDup picks /\ (q / se_W c) * se_U c <= length picks /\ length picks <= cdiv q (se_W c) * se_U c /\
+    length picks <= nu.
+Proof. exact unlabeled_mode_rank. Qed.
+Print Assumptions unlabeled_mode_each_rank_visits_unlabeled_samples_at_most_once.
+
+(* one SemiSampler object over several epochs: the k-th list(sampler) of any call sequence shows what a sampler
+   shows whose epoch is the argument of the last set_epoch before it (set_epoch(e) .. set_epoch(e') .. set_epoch(e)
+   reproduces; list(sampler) twice without set_epoch reproduces) *)
+Theorem semi_object_history : forall c rnd draw rank ops,
+    semi_object c rnd draw rank ops =
+    map (fun e => semi_run_rnd (se_set_epoch c e) rnd draw rank) (iter_epochs (se_epoch c) ops).
+Proof. exact semi_object_spec. Qed.
+Print Assumptions semi_object_history.
+
+(* REMARK, not a violation of C13's text ("differently seeded ... streams per rank" is about the ranks of ONE epoch):
+   seed + f(rank) + f(epoch) is symmetric, so rank a in epoch b replays rank b in epoch a, for every f *)
+Theorem semi_rank_epoch_swap_replays : forall c rnd draw a b,
+    r_out (semi_run_rnd (se_set_epoch c (Z.of_nat b)) rnd draw a) =
+    r_out (semi_run_rnd (se_set_epoch c (Z.of_nat a)) rnd draw b) /\
+    nth 2 (r_seeds (semi_run_rnd (se_set_epoch c (Z.of_nat b)) rnd draw a)) 0%Z =
+    nth 2 (r_seeds (semi_run_rnd (se_set_epoch c (Z.of_nat a)) rnd draw b)) 0%Z.
+Proof. exact semi_swap. Qed.
+Print Assumptions semi_rank_epoch_swap_replays.
 
 (* generators are seeded with rank, epoch, and seed + random_(rank) + random_(epoch) *)
 Theorem semi_generator_seeds : forall c rank_seed epoch_seed draw rank, perm_oracle draw -> semi_ctor_ok c = true ->
@@ -236,3 +306,19 @@ Proof. discriminate. Qed.
 
 Example cycles_through_example : cycles_through [1; 2] [2; 1; 1].
 Proof. exists [[2; 1]; [1; 2]], [2]. split; [|reflexivity]. repeat constructor. Qed.
+
+(* the lower bound spc - (C*spc) mod W is attained: 2 classes, spc = 3, W = 4: the tail of 2 entries can hold class 1 twice *)
+Example cb_cut_example :
+  let c := {| cb_classes := [0; 1; 1; 0]%Z; cb_dim := 2; cb_spc_arg := Some 3; cb_shuffle := false;
+              cb_seed := 0; cb_epoch := 0; cb_W := 4 |} in
+  cb_global c (fun _ _ n => seq 0 n) = Ok ([0; 3; 0; 1; 2; 1], []) /\
+  interleave (cb_streams c (fun _ _ n => seq 0 n)) = [0; 3; 0; 1] /\
+  class_count (cb_classes c) 1%Z (interleave (cb_streams c (fun _ _ n => seq 0 n))) = 1.
+Proof. vm_compute. repeat split; reflexivity. Qed.
+
+(* q = 1, L = U = 2, W = 2: a rank of 2 indices makes 2 labeled picks = ceil(q/W) * L *)
+Example semi_rank_example :
+  let c := {| se_classes := [0; 1; -1; -1]%Z; se_L := 2; se_U := 2; se_mode := MLabeled;
+              se_seed := 0; se_epoch := 0; se_W := 2 |} in
+  semi_ctor_ok c = true /\ r_out (semi_run c 5 7 (fun _ _ n => seq 0 n) 1) = Ok [0; 1].
+Proof. vm_compute. split; reflexivity. Qed.
